@@ -16,7 +16,7 @@ from pathlib import Path
 from types import SimpleNamespace
 
 REPO = Path(sys.argv[1] if len(sys.argv) > 1 else "/repo")
-OUT = Path(sys.argv[2] if len(sys.argv) > 2 else Path(__file__).resolve().parent.parent / "lean/StubGen/Generated/Decisions.lean")
+OUTDIR = Path(sys.argv[2] if len(sys.argv) > 2 else Path(__file__).resolve().parent.parent / "lean/StubGen/Generated")
 sys.path.insert(0, str(REPO / "src"))
 logging.disable(logging.CRITICAL)
 
@@ -60,8 +60,12 @@ def main() -> None:
     from safeds_stubgen.docstring_parsing import ParameterDocstring
     from safeds_stubgen.stubs_generator import StubsStringGenerator
 
-    lines = ["/- GENERATED by tie/tabulate.py: the REAL functions of /repo's working tree evaluated on every point of a finite",
-             "   domain — do not edit. -/", "namespace StubGen.Generated", ""]
+    files: dict[str, list[str]] = {}
+
+    def section(name: str) -> list[str]:
+        files[name] = []
+        return files[name]
+    lines = section("DecArgs")
 
     # --- get_argument_kind: ArgKind 0..5 x pos_only x is_self x is_cls
     rows = []
@@ -82,6 +86,7 @@ def main() -> None:
     rows = [f"({v}, {lb(bool(H.has_correct_type_of_any(v)))})" for v in range(13)]
     lines.append("def typeOfAnyTable : List (Nat × Bool) := [" + ", ".join(rows) + "]")
 
+    lines = section("DecParams")
     # --- _create_parameter_string on ONE parameter: assignment x optional x default x type x naming flag
     #     columns: assignment index, optional, default index, type index, safe  ->  text, sorted TODO keys
     assigns = [ParameterAssignment.IMPLICIT, ParameterAssignment.POSITION_ONLY, ParameterAssignment.POSITION_OR_NAME,
@@ -107,6 +112,7 @@ def main() -> None:
         rows.append(f"(({ai}, {lb(opt)}, {di}, {ti}, {ni}, {lb(safe)}), ({lean_str(text)}, [{', '.join(lean_str(x) for x in todos)}]))")
     lines.append("def parameterStringTable : List ((Nat × Bool × Nat × Nat × Nat × Bool) × (String × List String)) := [\n  "
                  + ",\n  ".join(rows) + "]")
+    lines = section("DecAttrs")
     # --- _create_class_attribute_string on ONE attribute: public x static x type x name x naming flag
     from safeds_stubgen.api_analyzer._api import Attribute, Result
     from safeds_stubgen.docstring_parsing import AttributeDocstring
@@ -130,6 +136,7 @@ def main() -> None:
     lines.append("def attributeStringTable : List ((Bool × Bool × Nat × Nat × Bool) × (String × List String × List String)) := [\n  "
                  + ",\n  ".join(rows) + "]")
 
+    lines = section("DecResults")
     # --- _create_result_string on result lists of length 0..2 over {no type, None, int, tuple[int]} x naming flag
     none_t = T.NamedType(name="None", qname="builtins.None")
     rtypes = [None, none_t, int_t, T.TupleType(types=[int_t])]
@@ -149,13 +156,15 @@ def main() -> None:
             text, todos = "!" + type(e).__name__, []
         rows.append(f"(([{', '.join(str(x) for x in shape)}], {lb(safe)}), ({lean_str(text)}, [{', '.join(lean_str(x) for x in todos)}]))")
     lines.append("def resultStringTable : List ((List Nat × Bool) × (String × List String)) := [\n  " + ",\n  ".join(rows) + "]")
-    lines += ["", "end StubGen.Generated", ""]
-    text = "\n".join(lines)
-    if OUT.exists() and OUT.read_text() == text:
-        print("T2: decision tables unchanged")
-    else:
-        OUT.write_text(text)
-        print(f"T2: wrote {OUT.name}")
+    changed = []
+    for name, body in files.items():
+        text = "\n".join(["/- GENERATED by tie/tabulate.py: the REAL functions of /repo's working tree evaluated on every point of a",
+                          "   finite domain — do not edit. -/", "namespace StubGen.Generated", "", *body, "", "end StubGen.Generated", ""])
+        out = OUTDIR / f"{name}.lean"
+        if not (out.exists() and out.read_text() == text):
+            out.write_text(text)
+            changed.append(name)
+    print("T2: decision tables unchanged" if not changed else f"T2: wrote {', '.join(changed)}")
 
 
 if __name__ == "__main__":
